@@ -11,6 +11,7 @@ import (
 	"database/sql/driver"
 	"errors"
 	"fmt"
+	"math/rand"
 	"reflect"
 	"strings"
 	"sync"
@@ -69,12 +70,24 @@ type env struct {
 	log      *capLogger
 	pollDone chan error
 	activity int64
-	tableIDs map[string]uint64
-	mapped   map[string]bool
+	// the database-side shape of each table as this environment's MySQL has it
+	// now: changed by alterTable (schema change on the one Binlog instance)
+	tstate map[string]*tableState
+	nextID uint64
 	// the previous cleanly decoded row per table: staged in front of the next
 	// one (multi-row result sets reuse pooled scanners and driver buffers)
 	prev        map[string]*prevRow
 	lastDecoded map[string]*lastDec
+}
+
+// tableState: column order in information_schema (struct columns permuted,
+// one extra column), position of each struct column in it, the table id of
+// the current table-map event and whether that event was already sent.
+type tableState struct {
+	layout []string
+	lpos   []int
+	id     uint64
+	mapped bool
 }
 
 type lastDec struct {
@@ -89,10 +102,11 @@ type prevRow struct {
 }
 
 func newEnv(z *zoo) (*env, error) {
-	e := &env{z: z, st: &fakeState{layouts: map[string][]string{}}, pollDone: make(chan error, 1), tableIDs: map[string]uint64{}, mapped: map[string]bool{}, prev: map[string]*prevRow{}, lastDecoded: map[string]*lastDec{}}
-	for k, ti := range z.tables {
+	e := &env{z: z, st: &fakeState{layouts: map[string][]string{}}, pollDone: make(chan error, 1), tstate: map[string]*tableState{}, nextID: 100, prev: map[string]*prevRow{}, lastDecoded: map[string]*lastDec{}}
+	for _, ti := range z.tables {
 		e.st.layouts[ti.name] = ti.layout
-		e.tableIDs[ti.name] = uint64(100 + k)
+		e.nextID++
+		e.tstate[ti.name] = &tableState{layout: ti.layout, lpos: ti.lpos, id: e.nextID}
 	}
 	e.conn = openFake(e.st)
 	e.db = sqlgen.NewDB(e.conn, z.schema)
@@ -240,7 +254,27 @@ func (e *env) binlogPath(c *caseCtx, choices []colChoice) {
 
 	kind := (c.i / len(c.z.tables)) % 4
 	if y, ok := build(raw); ok {
-		e.pushAndObserve(c, choices, raw, kind, fullFilter(y), "")
+		// One case in three runs a schema change on this Binlog instance: rows
+		// event (the column map gets cached), ALTER TABLE that keeps the number of
+		// columns but re-orders them (new table id, new information_schema order),
+		// rows event written in the new order. One in six only re-opens the table
+		// (new table id, same shape). The decoded rows must equal what was written
+		// before and after.
+		ra := c.run.Rand("alter", c.i)
+		switch ra.Intn(6) {
+		case 0, 1:
+			e.pushAndObserve(c, choices, raw, kind, fullFilter(y), "")
+			e.alterTable(ti, ra, true)
+			c.run.Count("binlog_e2e_schema_change:reorder_same_count", 1)
+			e.pushAndObserve(c, choices, raw, (kind+1)%4, fullFilter(y), "")
+		case 2:
+			e.pushAndObserve(c, choices, raw, kind, fullFilter(y), "")
+			e.alterTable(ti, ra, false)
+			c.run.Count("binlog_e2e_schema_change:new_table_id_same_shape", 1)
+			e.pushAndObserve(c, choices, raw, (kind+1)%4, fullFilter(y), "")
+		default:
+			e.pushAndObserve(c, choices, raw, kind, fullFilter(y), "")
+		}
 		return
 	}
 	// BuildStruct could not decode the binlog form (reported by the caller). Show
@@ -262,12 +296,41 @@ func (e *env) binlogPath(c *caseCtx, choices []colChoice) {
 	}
 }
 
+// alterTable gives the table a new table id; with reorder it also permutes
+// the table's columns in this environment's information_schema (same number
+// of columns). The next rows event is preceded by the new table-map event.
+func (e *env) alterTable(ti *tableInfo, r *rand.Rand, reorder bool) {
+	old := e.tstate[ti.name]
+	ns := &tableState{layout: old.layout, lpos: old.lpos}
+	if reorder {
+		n := len(ti.specs)
+		perm := r.Perm(n + 1)
+		ns.layout = make([]string, n+1)
+		ns.lpos = make([]int, n)
+		for j, p := range perm {
+			if j == n {
+				ns.layout[p] = "extra_db_only"
+			} else {
+				ns.layout[p] = ti.specs[j].name
+				ns.lpos[j] = p
+			}
+		}
+		e.st.mu.Lock()
+		e.st.layouts[ti.name] = ns.layout
+		e.st.mu.Unlock()
+	}
+	e.nextID++
+	ns.id = e.nextID
+	e.tstate[ti.name] = ns
+}
+
 // pushAndObserve registers a live dependency with the filter, pushes one rows
 // event built from row (binlog forms in struct column order) and waits until
 // the dependency is invalidated or the poll loop logs a decode failure.
 // errClass: classifier key to use if the poll loop fails to decode.
 func (e *env) pushAndObserve(c *caseCtx, choices []colChoice, row []driver.Value, kind int, filter sqlgen.Filter, errClass string) {
 	ti := c.ti
+	ts := e.tstate[ti.name]
 	// Each "no invalidation" verdict costs a quiescence wait of several seconds;
 	// after a few of them the verdict stands and further waiting adds nothing.
 	if atomic.LoadInt64(&quiescentVerdicts) >= 3 {
@@ -275,7 +338,7 @@ func (e *env) pushAndObserve(c *caseCtx, choices []colChoice, row []driver.Value
 		return
 	}
 	mkRow := func(flip bool) []interface{} {
-		brow := make([]interface{}, len(ti.layout))
+		brow := make([]interface{}, len(ts.layout))
 		for j := range brow {
 			brow[j] = int32(7) // the column the struct does not know
 		}
@@ -284,7 +347,7 @@ func (e *env) pushAndObserve(c *caseCtx, choices []colChoice, row []driver.Value
 			if flip && k == 0 {
 				v = flipKey(v)
 			}
-			brow[ti.lpos[k]] = v
+			brow[ts.lpos[k]] = v
 		}
 		return brow
 	}
@@ -323,30 +386,30 @@ func (e *env) pushAndObserve(c *caseCtx, choices []colChoice, row []driver.Value
 		return
 	}
 	errsBefore := atomic.LoadInt64(&e.log.n)
-	tm := &replication.TableMapEvent{TableID: e.tableIDs[ti.name], Schema: []byte(verifDatabase), Table: []byte(ti.name)}
-	if !e.mapped[ti.name] {
-		e.mapped[ti.name] = true
+	tm := &replication.TableMapEvent{TableID: ts.id, Schema: []byte(verifDatabase), Table: []byte(ti.name), ColumnCount: uint64(len(ts.layout))}
+	if !ts.mapped {
+		ts.mapped = true
 		e.push(&replication.BinlogEvent{Header: &replication.EventHeader{EventType: replication.TABLE_MAP_EVENT}, Event: tm})
 	}
-	e.push(&replication.BinlogEvent{Header: &replication.EventHeader{EventType: et}, Event: &replication.RowsEvent{Version: 2, Table: tm, TableID: tm.TableID, ColumnCount: uint64(len(ti.layout)), Rows: rows}})
+	e.push(&replication.BinlogEvent{Header: &replication.EventHeader{EventType: et}, Event: &replication.RowsEvent{Version: 2, Table: tm, TableID: tm.TableID, ColumnCount: uint64(len(ts.layout)), Rows: rows}})
 	o := vlib.WaitCond(func() bool {
 		return atomic.LoadInt64(&runs) >= 2 || atomic.LoadInt64(&e.log.n) > errsBefore
 	}, act, 10*time.Second, 60*time.Second)
 	srcRow := map[string]string{}
 	for j, v := range rows[len(rows)-1] {
-		srcRow[ti.layout[j]] = show(v)
+		srcRow[ts.layout[j]] = show(v)
 	}
 	switch {
 	case atomic.LoadInt64(&e.log.n) > errsBefore:
 		msg := e.log.last()
 		c.violate(errClass, c.wit(map[string]interface{}{"what": "binlog path: the poll loop failed to decode a row in the form the binlog produces", "event": et.String(),
-			"binlog_row": srcRow, "choices": fmt.Sprint(choices), "logged": vlib.Trunc(msg, 500)}))
+			"binlog_row": srcRow, "choices": fmt.Sprint(choices), "logged": vlib.Trunc(msg, 500), "table_id": ts.id, "information_schema_order": strings.Join(ts.layout, ",")}))
 	case o == vlib.Reached:
 		c.run.Count("binlog_e2e_matched", 1)
 	case o == vlib.QuiescentNot:
 		atomic.AddInt64(&quiescentVerdicts, 1)
 		c.violate("", c.wit(map[string]interface{}{"what": "binlog path: the decoded row did not match a dependency made of the row's own column values (no invalidation at quiescence)", "event": et.String(),
-			"binlog_row": srcRow, "choices": fmt.Sprint(choices), "filter": showFilter(filter)}))
+			"binlog_row": srcRow, "choices": fmt.Sprint(choices), "filter": showFilter(filter), "table_id": ts.id, "information_schema_order": strings.Join(ts.layout, ",")}))
 	default:
 		c.run.Inconclusive(fmt.Sprintf("case %d: binlog path undecided", c.i))
 	}
